@@ -428,6 +428,7 @@ fn oracle_c07(c: &mut Case, evs: &[Evt], stop_handled: bool, t3: &mut Vec<(Strin
                         c.queued.pop_front();
                     }
                     other => {
+                        t3.push(("C01".into(), format!("call with connection c{id} but the oldest queued connection is {:?}: a connection taken from the channel earlier was never handed to its service", other)));
                         t3.push(("C07".into(), format!("call with connection c{id} but the oldest queued connection is {:?} (order / loss / duplication)", other)));
                         c.queued.retain(|x| x != id);
                     }
@@ -718,7 +719,11 @@ fn oracle_c06(c: &mut Case, evs: &[Evt], closed: &[u32], done: bool, raw_before:
             }
         }
         if !closed.is_empty() && !done {
-            t3.push(("C07".into(), format!("queued connection(s) {:?} were dropped by the worker (no Stop was sent)", closed)));
+            // C01 ("never silently discarded") and C07 ("no queued connection lost"): a connection the worker took
+            // from its channel is handed to its service, or released while shutting down — never dropped while it runs
+            for tag in ["C07", "C01"] {
+                t3.push((tag.into(), format!("queued connection(s) {:?} were dropped by the worker (no Stop was sent)", closed)));
+            }
         }
         // C07 `serving_resumes`: a poll that ends right after an all-ready sweep leaves nothing queued
         let n = c.n;
@@ -856,7 +861,7 @@ fn run(a: &Args) {
     let mut t3_at: Vec<(usize, String, String)> = vec![];
     let all_lines: Vec<String> = in_lines(&a.input).collect();
     // server-level scenarios (real time, own threads) run first, concurrently
-    let srv_lines: Vec<String> = all_lines.iter().filter(|l| matches!(l.split_whitespace().next(), Some("srv") | Some("sig"))).cloned().collect();
+    let srv_lines: Vec<String> = all_lines.iter().filter(|l| matches!(l.split_whitespace().next(), Some("srv") | Some("sig") | Some("gate") | Some("fault"))).cloned().collect();
     let mut srv_results = srvlevel::run_jobs(&srv_lines).into_iter();
     for line in all_lines {
         let ws: Vec<&str> = line.split_whitespace().collect();
@@ -874,7 +879,7 @@ fn run(a: &Args) {
                     None => Some("bad-case".into()),
                 }
             }
-            ["srv", ..] | ["sig", ..] => {
+            ["srv", ..] | ["sig", ..] | ["gate", ..] | ["fault", ..] => {
                 srv_jobs.push((lines_out.len(), line.clone()));
                 None
             }
@@ -925,7 +930,19 @@ fn run(a: &Args) {
         }
         lines_out[*idx].1 = Some(obs);
         for m in fails {
-            t3_at.push((*idx, "C06".into(), m));
+            // a failure message may carry its own property tags: "[C08,C01] text"
+            let (tags, text) = match m.strip_prefix('[').and_then(|r| r.split_once("] ")) {
+                Some((t, rest)) => (t.split(',').map(|x| x.to_string()).collect::<Vec<_>>(), rest.to_string()),
+                None => (vec!["C06".to_string()], m.clone()),
+            };
+            let mut tags = tags;
+            // reported under the property this run was started for as well (one engine per property in check.py)
+            if !tags.contains(&a.prop) && tags != vec!["C06".to_string()] {
+                tags.push(a.prop.clone());
+            }
+            for t in tags {
+                t3_at.push((*idx, t.clone(), if t == a.prop && !m.starts_with('[') { text.clone() } else { m.clone() }));
+            }
         }
     }
     t3_at.sort_by_key(|x| x.0);
@@ -1464,7 +1481,320 @@ mod srvlevel {
         (line.to_string(), format!("exit={} early={}", if exit_ms.is_some() { "ok" } else { "never" }, early as u8), fails)
     }
 
-    /// run every `srv …` / `sig …` line concurrently; result per line: (observation, oracle failures)
+    // ---------------------------------------------------------------------------------------------
+    // `gate <name> kind=pending|fail`: a service whose readiness is switched by the test (C07, through the
+    // real `StreamService` adapter): ready for a first connection; while the worker is idle it turns
+    // Pending (or breaks once); the next connection must wait for it / go to the re-created instance.
+    // ---------------------------------------------------------------------------------------------
+    const G_READY: usize = 0;
+    const G_PENDING: usize = 1;
+    const G_FAIL_ONCE: usize = 2;
+
+    #[derive(Default)]
+    struct GateShared {
+        gate: AtomicUsize,
+        waker: std::sync::Mutex<Option<std::task::Waker>>,
+        created: AtomicUsize,
+        polls: AtomicUsize,
+        calls: std::sync::Mutex<Vec<(usize, usize)>>, // (instance, gate at the time of the call)
+    }
+
+    impl GateShared {
+        fn set_gate(&self, v: usize) {
+            self.gate.store(v, Ordering::SeqCst);
+            if let Some(w) = self.waker.lock().unwrap().take() {
+                w.wake();
+            }
+        }
+    }
+
+    struct GatedService {
+        id: usize,
+        shared: Arc<GateShared>,
+    }
+
+    impl actix_service::Service<actix_rt::net::TcpStream> for GatedService {
+        type Response = ();
+        type Error = ();
+        type Future = futures_core::future::LocalBoxFuture<'static, Result<(), ()>>;
+
+        fn poll_ready(&self, cx: &mut std::task::Context<'_>) -> std::task::Poll<Result<(), ()>> {
+            self.shared.polls.fetch_add(1, Ordering::SeqCst);
+            match self.shared.gate.load(Ordering::SeqCst) {
+                G_READY => std::task::Poll::Ready(Ok(())),
+                G_PENDING => {
+                    *self.shared.waker.lock().unwrap() = Some(cx.waker().clone());
+                    if self.shared.gate.load(Ordering::SeqCst) != G_PENDING {
+                        cx.waker().wake_by_ref();
+                    }
+                    std::task::Poll::Pending
+                }
+                _ => {
+                    // this instance is broken; its replacement is healthy
+                    self.shared.gate.store(G_READY, Ordering::SeqCst);
+                    std::task::Poll::Ready(Err(()))
+                }
+            }
+        }
+
+        fn call(&self, mut io: actix_rt::net::TcpStream) -> Self::Future {
+            use tokio::io::AsyncWriteExt;
+            let gate = self.shared.gate.load(Ordering::SeqCst);
+            self.shared.calls.lock().unwrap().push((self.id, gate));
+            let id = self.id;
+            Box::pin(async move {
+                let _ = io.write_all(&[b'0' + id as u8]).await;
+                let _ = io.shutdown().await;
+                Ok(())
+            })
+        }
+    }
+
+    /// connect, wait (bounded) for the one-byte answer of the service that took the connection
+    async fn ask(addr: std::net::SocketAddr, wait: Duration) -> Option<u8> {
+        use tokio::io::AsyncReadExt;
+        let mut c = tokio::net::TcpStream::connect(addr).await.ok()?;
+        let _ = socket2::SockRef::from(&c).set_linger(Some(Duration::ZERO));
+        let mut b = [0u8; 1];
+        match tokio::time::timeout(wait, c.read_exact(&mut b)).await {
+            Ok(Ok(_)) => Some(b[0]),
+            _ => None,
+        }
+    }
+
+    fn run_gate(line: &str) -> (String, String, Vec<String>) {
+        let ws: Vec<&str> = line.split_whitespace().collect();
+        let fail = match kv(&ws, "kind") {
+            Some("pending") => false,
+            Some("fail") => true,
+            _ => return (line.to_string(), "bad-op".into(), vec![]),
+        };
+        let rt = tokio::runtime::Builder::new_current_thread().enable_all().build().unwrap();
+        let mut fails = vec![];
+        let obs = rt.block_on(async {
+            let shared = Arc::new(GateShared::default());
+            let lst = match std::net::TcpListener::bind("127.0.0.1:0") {
+                Ok(l) => l,
+                Err(e) => return if is_port_error(&e) { "skipped".to_string() } else { format!("setup-error {e}") },
+            };
+            let addr = lst.local_addr().unwrap();
+            let sh = shared.clone();
+            let srv = match actix_server::Server::build().workers(1).disable_signals().listen("gated", lst, move || {
+                let sh = sh.clone();
+                actix_service::fn_factory(move || {
+                    let sh = sh.clone();
+                    async move {
+                        let id = sh.created.fetch_add(1, Ordering::SeqCst) + 1;
+                        Ok::<_, ()>(GatedService { id, shared: sh })
+                    }
+                })
+            }) {
+                Ok(b) => b.run(),
+                Err(e) => return format!("setup-error {e}"),
+            };
+            let handle = srv.handle();
+            let srv_task = tokio::spawn(srv);
+            // first connection: served by instance 1
+            let a1 = ask(addr, Duration::from_secs(10)).await;
+            // wait until the worker has swept again after that call and gone idle: two further readiness polls
+            // with nothing happening in between (bounded; if the machine is too slow the scenario shows nothing)
+            let p0 = shared.polls.load(Ordering::SeqCst);
+            let t = Instant::now();
+            let mut last = (p0, Instant::now());
+            loop {
+                tokio::time::sleep(Duration::from_millis(20)).await;
+                let p = shared.polls.load(Ordering::SeqCst);
+                if p != last.0 {
+                    last = (p, Instant::now());
+                }
+                if (p > p0 && last.1.elapsed() > Duration::from_millis(150)) || t.elapsed() > Duration::from_secs(5) {
+                    break;
+                }
+            }
+            shared.set_gate(if fail { G_FAIL_ONCE } else { G_PENDING });
+            tokio::time::sleep(Duration::from_millis(50)).await;
+            // second connection
+            let sh2 = shared.clone();
+            let second = tokio::spawn(async move {
+                let r = ask(addr, Duration::from_secs(15)).await;
+                let _ = sh2;
+                r
+            });
+            if !fail {
+                // it has to wait; 400 ms later the gate opens
+                tokio::time::sleep(Duration::from_millis(400)).await;
+                shared.set_gate(G_READY);
+            }
+            let a2 = second.await.ok().flatten();
+            let calls = shared.calls.lock().unwrap().clone();
+            handle.stop(false).await;
+            let _ = tokio::time::timeout(Duration::from_secs(5), srv_task).await;
+            // ---- the statement of C07 on what the service itself recorded
+            for (k, (id, gate)) in calls.iter().enumerate() {
+                if *gate != G_READY {
+                    fails.push(format!(
+                        "[C07] connection #{k} was handed to service instance {id} while its readiness was {} (no readiness poll preceded the call)",
+                        if *gate == G_PENDING { "Pending" } else { "Err (the instance is broken and has not been re-created)" }
+                    ));
+                }
+            }
+            if fail && calls.len() >= 2 && calls[1].0 != 2 {
+                fails.push(format!("[C07] after a failed readiness check the next connection was served by instance {} instead of the re-created instance 2", calls[1].0));
+            }
+            if a1.is_none() || a2.is_none() {
+                fails.push(format!("[C07] a connection was not served within 10-15 s although its service is ready (answers: {:?}, {:?})", a1, a2));
+            }
+            let g = |x: usize| match x {
+                G_READY => 'R',
+                G_PENDING => 'P',
+                _ => 'E',
+            };
+            format!("calls={} answers={}{}", calls.iter().map(|(i, x)| format!("{i}{}", g(*x))).collect::<Vec<_>>().join(","), a1.map_or('-', |b| b as char), a2.map_or('-', |b| b as char))
+        });
+        rt.shutdown_timeout(Duration::from_millis(200));
+        if obs == "skipped" {
+            return (format!("{line} skip=ports"), obs, vec![]);
+        }
+        (line.to_string(), obs, fails)
+    }
+
+    // ---------------------------------------------------------------------------------------------
+    // `fault <name>`: two workers; the service of worker 0 panics on request (the worker dies) and is slow to
+    // tear down. Connections made during the teardown must not go to the dead worker (C08 / C01): each is
+    // answered by a live worker.
+    // ---------------------------------------------------------------------------------------------
+    struct FaultShared {
+        instances: AtomicUsize,
+        kill_next: std::sync::atomic::AtomicBool,
+    }
+
+    struct FaultySvc {
+        gen: usize,
+        killed: std::cell::Cell<bool>,
+        shared: Arc<FaultShared>,
+    }
+
+    impl actix_service::Service<actix_rt::net::TcpStream> for FaultySvc {
+        type Response = ();
+        type Error = ();
+        type Future = futures_core::future::LocalBoxFuture<'static, Result<(), ()>>;
+
+        actix_service::always_ready!();
+
+        fn call(&self, mut stream: actix_rt::net::TcpStream) -> Self::Future {
+            use tokio::io::AsyncWriteExt;
+            if self.shared.kill_next.swap(false, Ordering::SeqCst) {
+                self.killed.set(true);
+                panic!("verif: killing worker instance {} on purpose", self.gen);
+            }
+            let gen = self.gen;
+            Box::pin(async move {
+                let _ = stream.write_all(&[b'0' + gen as u8]).await;
+                let _ = stream.shutdown().await;
+                Ok(())
+            })
+        }
+    }
+
+    impl Drop for FaultySvc {
+        fn drop(&mut self) {
+            if self.killed.get() {
+                // slow teardown of the service of the faulted worker
+                std::thread::sleep(Duration::from_millis(2500));
+            }
+        }
+    }
+
+    fn run_fault(line: &str) -> (String, String, Vec<String>) {
+        let rt = tokio::runtime::Builder::new_current_thread().enable_all().build().unwrap();
+        let mut fails = vec![];
+        let obs = rt.block_on(async {
+            let shared = Arc::new(FaultShared { instances: AtomicUsize::new(0), kill_next: std::sync::atomic::AtomicBool::new(false) });
+            let lst = match std::net::TcpListener::bind("127.0.0.1:0") {
+                Ok(l) => l,
+                Err(e) => return if is_port_error(&e) { "skipped".to_string() } else { format!("setup-error {e}") },
+            };
+            let addr = lst.local_addr().unwrap();
+            let sh = shared.clone();
+            let srv = match actix_server::Server::build().workers(2).disable_signals().listen("faulty", lst, move || {
+                let sh = sh.clone();
+                actix_service::fn_factory(move || {
+                    let sh = sh.clone();
+                    async move {
+                        let gen = sh.instances.fetch_add(1, Ordering::SeqCst) + 1;
+                        Ok::<_, ()>(FaultySvc { gen, killed: std::cell::Cell::new(false), shared: sh })
+                    }
+                })
+            }) {
+                Ok(b) => b.run(),
+                Err(e) => return format!("setup-error {e}"),
+            };
+            let handle = srv.handle();
+            let srv_task = tokio::spawn(srv);
+            let w = Duration::from_secs(8);
+            let show = |x: Option<u8>| x.map_or('-', |b| b as char);
+            let mut answers = vec![];
+            // handles = [w0 (instance 1), w1 (instance 2)], round-robin from slot 0
+            answers.push(ask(addr, w).await);
+            answers.push(ask(addr, w).await);
+            // kill w0 (its turn): the killing connection gets no answer
+            shared.kill_next.store(true, Ordering::SeqCst);
+            let killed = ask(addr, Duration::from_millis(1500)).await;
+            let t_kill = Instant::now();
+            tokio::time::sleep(Duration::from_millis(150)).await;
+            // two connections inside the teardown window: one for w1's slot, one for the dead w0's slot
+            let r1 = ask(addr, w).await;
+            let r2 = ask(addr, w).await;
+            let in_window = t_kill.elapsed() < Duration::from_millis(2300);
+            // the replacement comes up and rejoins the rotation
+            let t = Instant::now();
+            while shared.instances.load(Ordering::SeqCst) < 3 && t.elapsed() < Duration::from_secs(12) {
+                tokio::time::sleep(Duration::from_millis(25)).await;
+            }
+            let replaced = shared.instances.load(Ordering::SeqCst) >= 3;
+            tokio::time::sleep(Duration::from_millis(300)).await;
+            let mut later = vec![];
+            for _ in 0..4 {
+                later.push(ask(addr, w).await);
+            }
+            handle.stop(false).await;
+            let _ = tokio::time::timeout(Duration::from_secs(8), srv_task).await;
+            // ---- C08 / C01: a connection accepted after the fault is served by a live worker
+            for (k, r) in [r1, r2].iter().enumerate() {
+                if r.is_none() {
+                    fails.push(format!(
+                        "[C08,C01] connection #{k} made after worker 0 died (while its service was being torn down{}) was closed without an answer although worker 1 is alive: it was dispatched to the dead worker instead of being re-routed",
+                        if in_window { "" } else { "; the machine was slow, the window had passed" }
+                    ));
+                }
+            }
+            for (k, r) in later.iter().enumerate() {
+                if r.is_none() {
+                    fails.push(format!("[C08,C01] connection #{k} made after the replacement came up was not served"));
+                }
+            }
+            if !replaced {
+                fails.push("[C08] the faulted worker was not replaced within 12 s".into());
+            }
+            format!(
+                "before={}{} killed={} window={}{} replaced={} later-all-served={}",
+                show(answers[0]),
+                show(answers[1]),
+                show(killed),
+                show(r1),
+                show(r2),
+                replaced as u8,
+                later.iter().all(|x| x.is_some()) as u8
+            )
+        });
+        rt.shutdown_timeout(Duration::from_millis(200));
+        if obs == "skipped" {
+            return (format!("{line} skip=ports"), obs, vec![]);
+        }
+        (line.to_string(), obs, fails)
+    }
+
+    /// run every `srv …` / `sig …` / `gate …` / `fault …` line concurrently; result per line: (op, observation, oracle failures)
     pub fn run_jobs(lines: &[String]) -> Vec<(String, String, Vec<String>)> {
         let mut out = vec![];
         for batch in lines.chunks(12) {
@@ -1474,7 +1804,12 @@ mod srvlevel {
                 .map(|l| {
                     std::thread::spawn(move || {
                         let l2 = l.clone();
-                        let r = std::panic::catch_unwind(move || if l.split_whitespace().next() == Some("sig") { run_sig(&l) } else { run_srv(&l) });
+                        let r = std::panic::catch_unwind(move || match l.split_whitespace().next() {
+                            Some("sig") => run_sig(&l),
+                            Some("gate") => run_gate(&l),
+                            Some("fault") => run_fault(&l),
+                            _ => run_srv(&l),
+                        });
                         r.unwrap_or_else(|_| (l2, "panic".to_string(), vec!["the server-level scenario panicked".to_string()]))
                     })
                 })
@@ -1875,6 +2210,13 @@ mod gen {
             writeln!(w, "k-shape").unwrap();
         }
         if prop == "C07" {
+            // server level (real Server, real StreamService adapter): readiness that changes while the worker is idle,
+            // and a worker that dies with a slow service teardown (C08 / C01, run with this engine)
+            writeln!(w, "case srvlevel n=1 timeout=0").unwrap();
+            writeln!(w, "gate g0 kind=pending").unwrap();
+            writeln!(w, "gate g1 kind=fail").unwrap();
+            writeln!(w, "fault f0").unwrap();
+            writeln!(w, "gate bad kind=x").unwrap();
             if thorough {
                 c07_exhaustive(&mut *w, &mut rng, 1, 4, "x1_");
                 c07_exhaustive(&mut *w, &mut rng, 2, 4, "x2_");
